@@ -1,6 +1,7 @@
 import NeoFS.Base.Parse
 import NeoFS.Model.Notary
 import NeoFS.Driver.IRAuth
+import NeoFS.Driver.IRIndexer
 namespace NeoFS.Driver
 open NeoFS.Notary
 
@@ -87,9 +88,11 @@ def notaryStep (o : OpLine) : String :=
     | _, _, _, _, _, _, _ => "=> bad-op"
   | _, _, _, _, _, _ => "=> bad-op"
 
-def irStep (o : OpLine) : String :=
-  match o.name with
-  | "notary" => notaryStep o
-  | _ => irAuthStep o
+/-- the `ix*` ops (caching indexer, C35) carry state; every other op of the engine is self-contained -/
+def irStep (s : NeoFS.IRIndexer.St) (o : OpLine) : NeoFS.IRIndexer.St × String :=
+  if o.name.startsWith "ix" then IRIdx.step s o
+  else match o.name with
+  | "notary" => (s, notaryStep o)
+  | _ => (s, irAuthStep o)
 
 end NeoFS.Driver
